@@ -105,6 +105,25 @@ Theorem C18_yaml_fraction_rejected : forall days d s e vs ve,
 Proof. exact yaml_fraction_rejected. Qed.
 Print Assumptions C18_yaml_fraction_rejected.
 
+(** The value is truncated toward zero AFTER the scaling to nanoseconds (the
+    resolution of time.Duration): [vs], [ve] above are whole nanoseconds, and
+    a fraction below one nanosecond disappears, by design: 51600000.0000001 ms
+    reads as 51600000000000 ns and the document is accepted; 51600000.000001
+    ms is one nanosecond off a whole minute and is rejected. *)
+Example C18_json_sub_nanosecond_examples :
+  parse_ms_text txt_51600000_0000001 = Some 51600000000000 /\
+  51600000000000 mod ns_min = 0 /\
+  unmarshal_json_text (cons None (cons None (cons None (cons None
+     (cons (Some (txt_51600000_0000001, txt_58140000)) (cons None (cons None nil)))))))
+    = inr (cons zero_range (cons zero_range (cons zero_range (cons zero_range
+           (cons {| dr_start := 51600000000000; dr_end := 58140000000000 |}
+           (cons zero_range (cons zero_range nil))))))) /\
+  unmarshal_json_text (cons None (cons None (cons None (cons None
+     (cons (Some (txt_51600000_000001, txt_58140000)) (cons None (cons None nil)))))))
+    = inl (TRange 4 EStartNotMin).
+Proof. exact json_sub_nanosecond_examples. Qed.
+Print Assumptions C18_json_sub_nanosecond_examples.
+
 (** More generally: any day whose two texts read as a range outside the
     documented ones. *)
 Theorem C18_text_day_rejected : forall parse days d s e a b,
